@@ -4,7 +4,8 @@
 
 // ------------------------------------------------------------------ scope
 struct Scope {
-  int sigma = 2, L = 2, maxn = 0, co = -1, nf = 2, minn = 1;
+  int sigma = 2, L = 2, maxn = 0, co = -1, nf = 2, minn = 1, exact = 0;
+  str ramp;                      // "lex" | "shortlex" | "both": the sets are the first n strings of the universe in that order, n = 1..|U|
   std::vector<int> pres = {0};   // length of a common prefix prepended to every string (VByte boundaries of the shared-prefix length)
   std::vector<int> pals = {0}, stretches = {1};
   str pd = "quick";
@@ -21,6 +22,8 @@ struct Scope {
       else if (e[0] == "minn") sc.minn = atoi(e[1].c_str());
       else if (e[0] == "co") sc.co = atoi(e[1].c_str());
       else if (e[0] == "nf") sc.nf = atoi(e[1].c_str());
+      else if (e[0] == "exact") sc.exact = atoi(e[1].c_str());
+      else if (e[0] == "ramp") sc.ramp = e[1];
       else if (e[0] == "pd") sc.pd = e[1];
       else if (e[0] == "pal") { sc.pals.clear(); for (auto &x : split(e[1], '+')) sc.pals.push_back(pal_by_name(x)); }
       else if (e[0] == "pre") { sc.pres.clear(); for (auto &x : split(e[1], '+')) sc.pres.push_back(atoi(x.c_str())); }
@@ -32,30 +35,47 @@ struct Scope {
   }
 };
 
-static std::vector<uint32_t> enum_sets(const Scope &sc, size_t m) {
-  std::vector<uint32_t> v;
-  uint32_t full = (m >= 32) ? 0xFFFFFFFFu : ((1u << m) - 1);
-  if (sc.co >= 0) {           // co-small: all but <= co strings
-    std::function<void(uint32_t, int, int)> rec = [&](uint32_t mask, int from, int left) {
+typedef uint64_t setmask;
+// the universe of a scope: U(sigma,L), or with exact=1 only its strings of length exactly L
+static void scope_universe(const Scope &sc, strs &U) {
+  strs all; gen_universe(sc.sigma, sc.L, all);
+  for (auto &s : all) if (!sc.exact || (int)s.size() == sc.L) U.push_back(s);
+  if (U.size() > 64) { fprintf(stderr, "universe of %zu strings exceeds the 64-bit set mask\n", U.size()); exit(2); }
+}
+static std::vector<setmask> enum_sets(const Scope &sc, const strs &U) {
+  size_t m = U.size();
+  std::vector<setmask> v;
+  setmask full = (m >= 64) ? ~(setmask)0 : (((setmask)1 << m) - 1);
+  if (!sc.ramp.empty()) {      // ramps: every cardinality 1..|U| along a fixed order (size relations: table/word/bucket boundaries)
+    if (sc.ramp == "lex" || sc.ramp == "both") { setmask x = 0; for (size_t i = 0; i < m; i++) { x |= (setmask)1 << i; v.push_back(x); } }
+    if (sc.ramp == "shortlex" || sc.ramp == "both") {
+      std::vector<size_t> ord(m); for (size_t i = 0; i < m; i++) ord[i] = i;
+      std::stable_sort(ord.begin(), ord.end(), [&](size_t a, size_t b) { return U[a].size() < U[b].size(); });
+      setmask x = 0; for (size_t i = 0; i < m; i++) { x |= (setmask)1 << ord[i]; v.push_back(x); }
+    }
+    std::sort(v.begin(), v.end()); v.erase(std::unique(v.begin(), v.end()), v.end());
+  } else if (sc.co >= 0) {           // co-small: all but <= co strings
+    std::function<void(setmask, int, int)> rec = [&](setmask mask, int from, int left) {
       v.push_back(mask);
       if (!left) return;
-      for (int i = from; i < (int)m; i++) rec(mask & ~(1u << i), i + 1, left - 1);
+      for (int i = from; i < (int)m; i++) rec(mask & ~((setmask)1 << i), i + 1, left - 1);
     };
     rec(full, 0, sc.co);
   } else if (sc.maxn > 0) {
-    std::function<void(uint32_t, int, int)> rec = [&](uint32_t mask, int from, int left) {
+    std::function<void(setmask, int, int)> rec = [&](setmask mask, int from, int left) {
       if (mask) v.push_back(mask);
       if (!left) return;
-      for (int i = from; i < (int)m; i++) rec(mask | (1u << i), i + 1, left - 1);
+      for (int i = from; i < (int)m; i++) rec(mask | ((setmask)1 << i), i + 1, left - 1);
     };
     rec(0, 0, sc.maxn);
   } else {
-    for (uint32_t x = 1; x <= full; x++) v.push_back(x);
+    if (m > 30) { fprintf(stderr, "all subsets of %zu strings: use maxn=, co= or ramp=\n", m); exit(2); }
+    for (setmask x = 1; x <= full; x++) v.push_back(x);
   }
-  std::vector<uint32_t> w;
-  for (uint32_t x : v) if (__builtin_popcount(x) >= sc.minn) w.push_back(x);
-  std::stable_sort(w.begin(), w.end(), [](uint32_t a, uint32_t b) {
-    int pa = __builtin_popcount(a), pb = __builtin_popcount(b); return pa != pb ? pa < pb : a < b; });
+  std::vector<setmask> w;
+  for (setmask x : v) if (__builtin_popcountll(x) >= sc.minn) w.push_back(x);
+  std::stable_sort(w.begin(), w.end(), [](setmask a, setmask b) {
+    int pa = __builtin_popcountll(a), pb = __builtin_popcountll(b); return pa != pb ? pa < pb : a < b; });
   return w;
 }
 
@@ -109,12 +129,12 @@ static strs sources_for(int k, const str &pd) {
 }
 
 // ------------------------------------------------------------------ unit = (set, palette, stretch)
-struct Unit { uint32_t mask; int pal, stretch; int pre = 0; };
+struct Unit { setmask mask; int pal, stretch; int pre = 0; };
 
 static Cell make_cell(const Scope &sc, const strs &U, const Unit &u) {
   Cell cell; cell.pal = u.pal; cell.sigma = sc.sigma; cell.L = sc.L; cell.stretch = u.stretch;
   str pre((size_t)u.pre, (char)PALETTES[u.pal].b[0]);
-  for (size_t i = 0; i < U.size(); i++) if (u.mask & (1u << i)) cell.S.push_back(pre + concretise(U[i], PALETTES[u.pal], u.stretch));
+  for (size_t i = 0; i < U.size(); i++) if ((u.mask >> i) & 1) cell.S.push_back(pre + concretise(U[i], PALETTES[u.pal], u.stretch));
   std::sort(cell.S.begin(), cell.S.end(), ult);
   cell.Q = query_universe(PALETTES[u.pal], sc.sigma, sc.L, u.stretch, sc.nf);
   if (u.pre > 0) {   // queries: the prefixed universe, the bare prefix and its neighbours, and a few un-prefixed ones
